@@ -464,6 +464,8 @@ class PortNamespace(collections.abc.MutableMapping, Port):
 
         if namespace:
             portnamespace = cast(PortNamespace, self[port_name])
+            if not isinstance(portnamespace, PortNamespace):
+                raise ValueError(f"port '{port_name}' in port namespace '{self.name}' is not a port namespace")
             return portnamespace.get_port(
                 self.NAMESPACE_SEPARATOR.join(namespace), create_dynamically=create_dynamically
             )
